@@ -311,7 +311,8 @@ PROPS = {
     "C17": dict(
         pkg="c17", level="exploration", needs_binary=True,
         tests=[T("TestC17", Q(110, timeout=300, shrinktime="15s"), Q(500, timeout=1500, shards=4, shrinktime="60s")),
-               T("TestC17TLS", Q(6000, timeout=300), Q(40000, timeout=900, shards=8))],
+               T("TestC17TLS", Q(6000, timeout=300), Q(40000, timeout=900, shards=8)),
+               T("TestC17Wire", Q(600, timeout=300, shrinktime="15s"), Q(5000, timeout=1200, shards=4, shrinktime="60s"))],
         rule="TestC17: six real processes started by the production wiring - leaders with token config {tables only, maintenance only, both, none} and followers {both, none}; a case is 3-20 calls, each to a drawn process and method "
              "(Tables Create/Delete/List, Maintenance Backup (server stream) / Restore (client stream) / Reset, plus KV Range and Cluster Status as unprotected controls) carrying a generated authorization header: right token, no header, empty token, "
              "strict prefix / suffix, extended by one character, one letter case-flipped, extra leading / trailing space, the OTHER service's token, wrong scheme, missing space, random token; scheme spelled Bearer/bearer/BEARER/bEaReR. "
@@ -320,9 +321,12 @@ PROPS = {
              "TestC17TLS: security.TLSInfo.ServerConfig() with trusted CA + generated {allowed CN | allowed hostname | neither, client-cert-auth flag}; freshly minted ECDSA client certificates: issuer trusted / rogue CA with the SAME subject name / self-signed / "
              "via trusted or rogue intermediate (chain sent or not) / none; CN exact / truncated / extended / prefixed / case-flipped / empty / unrelated; SAN DNS / IP / wildcard / mutated / absent; valid / expired / not yet valid; EKU client / both / server-only / none. "
              "Real handshakes over net.Pipe, the server-side result is the verdict. Oracle: accepted iff x509 verification against the configured CA for client auth succeeds AND CN == allowed CN resp. VerifyHostname(allowed hostname) succeeds. "
-             "Non-trivial iff a certificate right in all aspects but one (or rogue CA with the right CN) was refused. Distinct = sha256 of case JSON.",
+             "Non-trivial iff a certificate right in all aspects but one (or rogue CA with the right CN) was refused. "
+             "TestC17Wire: the same certificate generator and reference predicate against the REAL wiring: three `regatta leader` processes with https:// client-API and replication endpoints configured through "
+             "--api.cert-filename/--api.ca-filename/--api.allowed-cn/--api.allowed-hostname/--api.client-cert-auth and the replication.* settings (allowed-cn / allowed-hostname of the replication endpoint have no flag and are given in config.yaml); "
+             "each case dials one of the six endpoints with a freshly minted client certificate and performs one RPC (Cluster.Status / Metadata.Get); served iff the predicate accepts; the process must stay alive. Distinct = sha256 of case JSON.",
         assumptions=["crypto/x509 verification is the definition of 'chains to that CA'", "header values are restricted to what the gRPC client library transmits (printable ASCII)"],
-        technique="property-based testing of the authentication decision against an independent reference predicate, on the real binaries (tokens) and on the real TLS configuration (certificates)",
+        technique="property-based testing of the authentication decision against an independent reference predicate, on the real binaries (tokens, and certificates on https endpoints configured by flags/config file) and on the real TLS configuration object (certificates)",
         level_text="Randomised exploration biased to near-miss credentials with an exact accept/refuse oracle.",
         level_note="Trusted: Go's crypto/tls and crypto/x509; go-grpc-middleware's header parsing is part of the system under test.",
     ),
